@@ -976,9 +976,85 @@ func (txcacheComp) Gen(rng *rand.Rand, tier string) [][]string {
 	}
 	var hs [][]string
 	for i := 0; i < nh; i++ {
+		if i%10 == 6 {
+			hs = append(hs, genTxStorm(rng, i))
+			continue
+		}
 		hs = append(hs, genTxHistory(rng, steps, i))
 	}
 	return hs
+}
+
+// genTxStorm: directed eviction histories — "fee-bump storms" (one sender holding several same-nonce alternatives that are the
+// least valuable transactions of the pool), ties on the price per unit across senders (order decided by gas limit / hash),
+// uneven sizes with a byte threshold that needs several passes, small batch sizes. These are the shapes in which a heap that
+// is advanced wrongly, a sibling removed as collateral, or a pass that removes nothing make eviction deviate.
+func genTxStorm(rng *rand.Rand, idx int) []string {
+	n := pick(rng, 1, 1, 2, 2, 3)
+	c := pick(rng, 6, 8, 10, 12, 1000)
+	nb := pick(rng, 400, 600, 900, 1000, 1000000)
+	if c == 1000 && nb == 1000000 {
+		nb = 900
+	}
+	chunks := pick(rng, 1, 2, 16)
+	h := []string{fmt.Sprintf("begin txcache chunks=%d evict=1 nb=%d nbs=1000000 c=%d cs=100 n=%d", chunks, nb, c, n)}
+	nSenders := 2 + rng.Intn(3)
+	var hashes [][]byte
+	mk := func(sender []byte, nonce uint64, price uint64, gasLimit uint64, size int) {
+		hash := []byte{byte(0x30 + len(hashes)), byte(rng.Intn(256))}
+		if rng.Intn(3) == 0 {
+			hash = []byte{byte(0x30 + len(hashes))}
+		}
+		fee := new(big.Int).Mul(new(big.Int).SetUint64(gasLimit), new(big.Int).SetUint64(price))
+		h = append(h, fmt.Sprintf("tx %s %s %d %d %d %d %s 0 -", hx(hash), hx(sender), nonce, price, gasLimit, size, fee))
+		hashes = append(hashes, hash)
+	}
+	prices := []uint64{1, 1, 2}
+	if rng.Intn(3) == 0 {
+		prices = []uint64{1, 1, 1} // everything ties on the price per unit
+	}
+	for si := 0; si < nSenders; si++ {
+		sender := []byte{byte(0xb0 + si), byte(rng.Intn(256))}
+		nonces := 2 + rng.Intn(3)
+		for nonce := 0; nonce < nonces; nonce++ {
+			alts := 1
+			if si == 0 && nonce == nonces-1 {
+				alts = n + 1 + rng.Intn(3) // the storm: more same-nonce alternatives than one batch takes
+			} else if rng.Intn(4) == 0 {
+				alts = 2
+			}
+			for a := 0; a < alts; a++ {
+				price := prices[rng.Intn(len(prices))]
+				if si == 0 {
+					price = 1
+				}
+				gasLimit := pick(rng, uint64(10), 10, 20, 50)
+				size := pick(rng, 50, 50, 100, 200)
+				mk(sender, uint64(nonce), price+uint64(a), gasLimit, size) // same nonce: distinct gas prices order the siblings
+			}
+		}
+	}
+	// one or two large transactions that push the byte counter far over the threshold
+	big1 := []byte{0xbf, byte(rng.Intn(256))}
+	mk(big1, 0, 3, 10, pick(rng, 500, 800, 800))
+	if rng.Intn(2) == 0 {
+		mk(big1, 1, 3, 10, pick(rng, 300, 500))
+	}
+	order := rng.Perm(len(hashes))
+	for _, i := range order {
+		h = append(h, "add "+hx(hashes[i]))
+	}
+	for i := 0; i < 12; i++ {
+		switch x := rng.Intn(10); {
+		case x < 7:
+			h = append(h, "add "+hx(hashes[rng.Intn(len(hashes))]))
+		case x < 9:
+			h = append(h, "rm "+hx(hashes[rng.Intn(len(hashes))]))
+		default:
+			h = append(h, fmt.Sprintf("selb %d 1000 0", ^uint64(0)))
+		}
+	}
+	return h
 }
 
 func genTxHistory(rng *rand.Rand, steps int, idx int) []string {
